@@ -89,9 +89,9 @@ impl Hasher for Rec {
     }
 }
 
-fn any_label(buf: &[u8; L]) -> &Label {
+fn any_label<const N: usize>(buf: &[u8; N]) -> &Label {
     let n: usize = kani::any();
-    kani::assume(n <= L);
+    kani::assume(n <= N && n <= L);
     match <&Label>::try_from(&buf[..n]) {
         Ok(l) => l,
         Err(_) => unreachable!(),
@@ -99,16 +99,42 @@ fn any_label(buf: &[u8; L]) -> &Label {
 }
 
 // ---------------------------------------------------------------------
-// Label: complete by the type bound (labels are <= 63 octets).
+// Label: complete by the type bound (labels are <= 63 octets) for the
+// full_* harnesses; the bnd_*_16 variants are the same checks on labels of
+// <= 16 octets for the quick tier.
 // ---------------------------------------------------------------------
+
+fn check_label_eq<const N: usize>() {
+    let (ba, bb): ([u8; N], [u8; N]) = (kani::any(), kani::any());
+    let (a, b) = (any_label(&ba), any_label(&bb));
+    assert!((a == b) == ref_label_eq(a.octets(), b.octets()));
+}
+
+fn check_label_cmp<const N: usize>() {
+    let (ba, bb): ([u8; N], [u8; N]) = (kani::any(), kani::any());
+    let (a, b) = (any_label(&ba), any_label(&bb));
+    let c = a.cmp(b);
+    assert!(c == ref_label_cmp(a.octets(), b.octets()));
+    assert!(a.partial_cmp(b) == Some(c));
+}
+
+fn check_label_cmp_eq<const N: usize>() {
+    let (ba, bb): ([u8; N], [u8; N]) = (kani::any(), kani::any());
+    let (a, b) = (any_label(&ba), any_label(&bb));
+    assert!((a.cmp(b) == Ordering::Equal) == (a == b));
+}
+
+fn check_label_cmp_antisym<const N: usize>() {
+    let (ba, bb): ([u8; N], [u8; N]) = (kani::any(), kani::any());
+    let (a, b) = (any_label(&ba), any_label(&bb));
+    assert!(b.cmp(a) == a.cmp(b).reverse());
+}
 
 /// [C16.label_eq] `Label::eq` is exactly ASCII-case-insensitive octet equality.
 #[kani::proof]
 #[kani::unwind(65)]
 pub(crate) fn full_label_eq_is_ascii_ci() {
-    let (ba, bb): ([u8; L], [u8; L]) = (kani::any(), kani::any());
-    let (a, b) = (any_label(&ba), any_label(&bb));
-    assert!((a == b) == ref_label_eq(a.octets(), b.octets()));
+    check_label_eq::<L>();
 }
 
 /// [C16.label_cmp] `Label::cmp` is the RFC 4034 6.1 canonical label order
@@ -116,30 +142,47 @@ pub(crate) fn full_label_eq_is_ascii_ci() {
 /// octet strings), and `partial_cmp` agrees with it.
 #[kani::proof]
 #[kani::unwind(65)]
+#[kani::solver(kissat)]
 pub(crate) fn full_label_cmp_is_canonical() {
-    let (ba, bb): ([u8; L], [u8; L]) = (kani::any(), kani::any());
-    let (a, b) = (any_label(&ba), any_label(&bb));
-    let c = a.cmp(b);
-    assert!(c == ref_label_cmp(a.octets(), b.octets()));
-    assert!(a.partial_cmp(b) == Some(c));
+    check_label_cmp::<L>();
 }
 
 /// [C16.label_cmp] ordering is consistent with equality: `cmp == Equal` iff `eq`.
 #[kani::proof]
 #[kani::unwind(65)]
+#[kani::solver(kissat)]
 pub(crate) fn full_label_cmp_equal_iff_eq() {
-    let (ba, bb): ([u8; L], [u8; L]) = (kani::any(), kani::any());
-    let (a, b) = (any_label(&ba), any_label(&bb));
-    assert!((a.cmp(b) == Ordering::Equal) == (a == b));
+    check_label_cmp_eq::<L>();
 }
 
 /// [C16.label_cmp] antisymmetry: `b.cmp(a) == a.cmp(b).reverse()`.
 #[kani::proof]
 #[kani::unwind(65)]
+#[kani::solver(kissat)]
 pub(crate) fn full_label_cmp_antisymmetric() {
-    let (ba, bb): ([u8; L], [u8; L]) = (kani::any(), kani::any());
-    let (a, b) = (any_label(&ba), any_label(&bb));
-    assert!(b.cmp(a) == a.cmp(b).reverse());
+    check_label_cmp_antisym::<L>();
+}
+
+/// Quick-tier variants: labels of <= 16 octets.
+#[kani::proof]
+#[kani::unwind(18)]
+pub(crate) fn bnd_label_eq_is_ascii_ci_16() {
+    check_label_eq::<16>();
+}
+#[kani::proof]
+#[kani::unwind(18)]
+pub(crate) fn bnd_label_cmp_is_canonical_16() {
+    check_label_cmp::<16>();
+}
+#[kani::proof]
+#[kani::unwind(18)]
+pub(crate) fn bnd_label_cmp_equal_iff_eq_16() {
+    check_label_cmp_eq::<16>();
+}
+#[kani::proof]
+#[kani::unwind(18)]
+pub(crate) fn bnd_label_cmp_antisymmetric_16() {
+    check_label_cmp_antisym::<16>();
 }
 
 /// [C16.label_hash] The octets a label feeds to a hasher are its length followed
@@ -178,4 +221,469 @@ pub(crate) fn full_label_eq_implies_same_hash_input() {
             i += 1;
         }
     }
+}
+
+// ---------------------------------------------------------------------
+// Name-level API on valid names: BOUNDED (at most NL non-null labels of at
+// most LO arbitrary octets each - '.', '\\', space, NUL, non-ASCII, '*' all
+// included).  The `&Name` is laid over a stack buffer with the crate's own
+// #[repr(C)] layout [n_labels | label offsets | wire form] (what Name::root()
+// does with its static), so no Box<Name> allocation is needed.
+// ---------------------------------------------------------------------
+
+const NL: usize = 3;
+const LO: usize = 2;
+const WMAX: usize = NL * (LO + 1) + 1;
+const NBUF: usize = 1 + (NL + 1) + WMAX;
+
+/// Reference view of a name: `k` non-null labels, label `i` has `len[i]` octets.
+pub(crate) struct RefName {
+    k: usize,
+    len: [usize; NL],
+    oct: [[u8; LO]; NL],
+    buf: [u8; NBUF],
+    wire_at: usize,
+    wire_len: usize,
+}
+
+impl RefName {
+    fn any() -> Self {
+        let k: usize = kani::any();
+        kani::assume(k <= NL);
+        let len: [usize; NL] = kani::any();
+        let oct: [[u8; LO]; NL] = kani::any();
+        let mut buf = [0u8; NBUF];
+        let n_labels = k + 1;
+        let wire_at = 1 + n_labels;
+        buf[0] = n_labels as u8;
+        let mut w = 0usize; // offset in the wire form
+        let mut i = 0;
+        while i < NL {
+            if i < k {
+                kani::assume(1 <= len[i] && len[i] <= LO);
+                buf[1 + i] = w as u8;
+                buf[wire_at + w] = len[i] as u8;
+                let mut j = 0;
+                while j < LO {
+                    if j < len[i] {
+                        buf[wire_at + w + 1 + j] = oct[i][j];
+                    }
+                    j += 1;
+                }
+                w += 1 + len[i];
+            }
+            i += 1;
+        }
+        buf[1 + k] = w as u8; // the null label
+        buf[wire_at + w] = 0;
+        RefName { k, len, oct, buf, wire_at, wire_len: w + 1 }
+    }
+
+    fn name(&self) -> &Name {
+        let n = (self.k + 1) + self.wire_len;
+        unsafe { &*(core::ptr::slice_from_raw_parts(self.buf.as_ptr(), n) as *const Name) }
+    }
+
+    fn name_mut(&mut self) -> &mut Name {
+        let n = (self.k + 1) + self.wire_len;
+        unsafe { &mut *(core::ptr::slice_from_raw_parts_mut(self.buf.as_mut_ptr(), n) as *mut Name) }
+    }
+
+    fn wire(&self) -> &[u8] {
+        &self.buf[self.wire_at..self.wire_at + self.wire_len]
+    }
+
+    /// Octets of label `i` (`i == k` is the null label).
+    fn label(&self, i: usize) -> &[u8] {
+        if i < self.k {
+            &self.oct[i][..self.len[i]]
+        } else {
+            &[]
+        }
+    }
+
+    /// Wire offset of label `i` (`i <= k`).
+    fn offset(&self, i: usize) -> usize {
+        let mut w = 0;
+        let mut j = 0;
+        while j < NL {
+            if j < i && j < self.k {
+                w += 1 + self.len[j];
+            }
+            j += 1;
+        }
+        w
+    }
+}
+
+/// Names are equal iff they have the same number of labels and the labels are
+/// pairwise equal ignoring ASCII case (RFC 1034 3.1, RFC 4343).
+fn ref_name_eq(a: &RefName, b: &RefName) -> bool {
+    if a.k != b.k {
+        return false;
+    }
+    let mut i = 0;
+    while i < NL {
+        if i < a.k && !ref_label_eq(a.label(i), b.label(i)) {
+            return false;
+        }
+        i += 1;
+    }
+    true
+}
+
+/// RFC 4034 6.1 canonical name order: compare label by label starting with the
+/// rightmost (most significant) label below the root; the first unequal pair
+/// decides; if one name runs out of labels first, it sorts first.
+fn ref_name_cmp(a: &RefName, b: &RefName) -> Ordering {
+    let mut j = 0;
+    while j < NL {
+        if j >= a.k && j >= b.k {
+            return Ordering::Equal;
+        }
+        if j >= a.k {
+            return Ordering::Less;
+        }
+        if j >= b.k {
+            return Ordering::Greater;
+        }
+        let c = ref_label_cmp(a.label(a.k - 1 - j), b.label(b.k - 1 - j));
+        if c != Ordering::Equal {
+            return c;
+        }
+        j += 1;
+    }
+    Ordering::Equal
+}
+
+/// `a` is `b` or below `b`: the labels of `b` are the last labels of `a`.
+fn ref_subdomain(a: &RefName, b: &RefName) -> bool {
+    if a.k < b.k {
+        return false;
+    }
+    let mut j = 0;
+    while j < NL {
+        if j < b.k && !ref_label_eq(a.label(a.k - 1 - j), b.label(b.k - 1 - j)) {
+            return false;
+        }
+        j += 1;
+    }
+    true
+}
+
+/// [C16.name_eq] `Name::eq` ignores ASCII case and nothing else.
+#[kani::proof]
+#[kani::unwind(6)]
+pub(crate) fn bnd_name_eq_is_labelwise_ci() {
+    let (a, b) = (RefName::any(), RefName::any());
+    assert!((a.name() == b.name()) == ref_name_eq(&a, &b));
+}
+
+/// [C16.name_cmp] `Name::cmp` is the RFC 4034 6.1 canonical order, consistent
+/// with `eq`, antisymmetric.
+#[kani::proof]
+#[kani::unwind(6)]
+pub(crate) fn bnd_name_cmp_is_canonical() {
+    let (a, b) = (RefName::any(), RefName::any());
+    let c = a.name().cmp(b.name());
+    assert!(c == ref_name_cmp(&a, &b));
+    assert!((c == Ordering::Equal) == (a.name() == b.name()));
+    assert!(b.name().cmp(a.name()) == c.reverse());
+    assert!(a.name().partial_cmp(b.name()) == Some(c));
+}
+
+/// [C16.name_cmp] transitivity of `<=` on three names.
+#[kani::proof]
+#[kani::unwind(6)]
+pub(crate) fn bnd_name_cmp_transitive() {
+    let (a, b, c) = (RefName::any(), RefName::any(), RefName::any());
+    if a.name().cmp(b.name()) != Ordering::Greater && b.name().cmp(c.name()) != Ordering::Greater {
+        assert!(a.name().cmp(c.name()) != Ordering::Greater);
+    }
+}
+
+/// [C16.name_hash] a name feeds the hasher its case-folded wire form (every
+/// length octet is <= 63 and is not changed by folding) - so equal names hash
+/// alike and nothing but ASCII case is ignored.
+#[kani::proof]
+#[kani::unwind(12)]
+pub(crate) fn bnd_name_hash_is_folded_wire() {
+    let a = RefName::any();
+    let mut h = Rec::new();
+    a.name().hash(&mut h);
+    let w = a.wire();
+    assert!(h.n == w.len());
+    let mut i = 0;
+    while i < WMAX {
+        if i < w.len() {
+            assert!(h.b[i] == fold(w[i]));
+        }
+        i += 1;
+    }
+}
+
+/// [C16.subdomain] `eq_or_subdomain_of` agrees with the label-suffix reference.
+#[kani::proof]
+#[kani::unwind(6)]
+pub(crate) fn bnd_name_eq_or_subdomain_of() {
+    let (a, b) = (RefName::any(), RefName::any());
+    assert!(a.name().eq_or_subdomain_of(b.name()) == ref_subdomain(&a, &b));
+}
+
+/// [C16.labels] `len`, `wire_repr`, `Index<usize>`, `labels()`, `is_root`,
+/// `wire_repr_to`, `wire_repr_from` agree with the reference view.
+#[kani::proof]
+#[kani::unwind(6)]
+pub(crate) fn bnd_name_label_access() {
+    let a = RefName::any();
+    let n = a.name();
+    assert!(n.len() == a.k + 1);
+    assert!(n.wire_repr() == a.wire());
+    assert!(n.is_root() == (a.k == 0));
+    let i: usize = kani::any();
+    kani::assume(i <= a.k + 1);
+    if i <= a.k {
+        assert!(n[i].octets() == a.label(i));
+        assert!(n[i].is_null() == (i == a.k));
+    }
+    let off = if i <= a.k { a.offset(i) } else { a.wire_len };
+    assert!(n.wire_repr_to(i) == &a.wire()[..off]);
+    assert!(n.wire_repr_from(i) == &a.wire()[off..]);
+    // the iterator yields the labels in order, then stops
+    let mut it = n.labels();
+    let mut j = 0;
+    while j < NL + 1 {
+        if j <= a.k {
+            match it.next() {
+                Some(l) => assert!(l.octets() == a.label(j)),
+                None => assert!(false),
+            }
+        }
+        j += 1;
+    }
+    assert!(it.next().is_none());
+}
+
+/// [C16.lowercase] `make_ascii_lowercase` folds the label octets in place and
+/// leaves the structure (label count, offsets, length octets) alone.
+#[kani::proof]
+#[kani::unwind(6)]
+pub(crate) fn bnd_name_make_ascii_lowercase() {
+    let mut a = RefName::any();
+    let before = a.buf;
+    a.name_mut().make_ascii_lowercase();
+    let mut i = 0;
+    while i < NBUF {
+        if i < a.wire_at {
+            assert!(a.buf[i] == before[i]);
+        } else if i < a.wire_at + a.wire_len {
+            assert!(a.buf[i] == fold(before[i]));
+        }
+        i += 1;
+    }
+}
+
+// ---------------------------------------------------------------------
+// Laws of the reference order itself (pure; closes the chain
+// cmp == ref_label_cmp, eq == ref_label_eq  =>  cmp==Equal <=> eq, antisymmetry
+// at the full 63-octet bound without a second pass through the crate code).
+// ---------------------------------------------------------------------
+
+#[kani::proof]
+#[kani::unwind(65)]
+pub(crate) fn full_ref_label_order_laws() {
+    let (ba, bb): ([u8; L], [u8; L]) = (kani::any(), kani::any());
+    let (na, nb): (usize, usize) = (kani::any(), kani::any());
+    kani::assume(na <= L && nb <= L);
+    let (a, b) = (&ba[..na], &bb[..nb]);
+    let c = ref_label_cmp(a, b);
+    assert!((c == Ordering::Equal) == ref_label_eq(a, b));
+    assert!(ref_label_cmp(b, a) == c.reverse());
+}
+
+// ---------------------------------------------------------------------
+// Text form: BOUNDED cross-checks on the real crate, including the real
+// NameBuilder and the unsafe `new_boxed_name` allocation (which the Verus
+// units name_builder / name_text only cover through its contract).
+// ---------------------------------------------------------------------
+
+/// Text buffer for names.
+pub(crate) struct NTxt {
+    b: [u8; 40],
+    n: usize,
+}
+impl NTxt {
+    fn new() -> Self {
+        NTxt { b: [0; 40], n: 0 }
+    }
+    fn as_str(&self) -> &str {
+        // only ASCII octets are ever stored
+        unsafe { core::str::from_utf8_unchecked(&self.b[..self.n]) }
+    }
+}
+impl core::fmt::Write for NTxt {
+    fn write_str(&mut self, s: &str) -> core::fmt::Result {
+        for &c in s.as_bytes() {
+            if self.n >= 40 {
+                return Err(core::fmt::Error);
+            }
+            self.b[self.n] = c;
+            self.n += 1;
+        }
+        Ok(())
+    }
+}
+
+/// Wire buffer of the reference text parser.
+const RW: usize = 16;
+
+fn is_digit(c: u8) -> bool {
+    b'0' <= c && c <= b'9'
+}
+
+/// RFC 1035 5.1 / RFC 4343 2.1 reference: the wire form the ASCII text `t`
+/// denotes, if it is an absolute name (labels 1..=63 octets, name <= 255; for
+/// the short texts of the harness neither limit can be reached).
+fn ref_text_name(t: &[u8], max: usize) -> Option<([u8; RW], usize)> {
+    let mut w = [0u8; RW];
+    if t.is_empty() {
+        return None;
+    }
+    if t.len() == 1 && t[0] == b'.' {
+        return Some((w, 1));
+    }
+    let mut wl = 0usize; // octets of closed labels
+    let mut cur = 0usize; // octets of the open label (stored after its length octet)
+    let mut i = 0usize;
+    let mut steps = 0usize;
+    while steps < max {
+        if i >= t.len() {
+            break;
+        }
+        let c = t[i];
+        if c == b'\\' {
+            if i + 1 >= t.len() {
+                return None;
+            }
+            let d = t[i + 1];
+            if is_digit(d) {
+                if i + 3 >= t.len() || !is_digit(t[i + 2]) || !is_digit(t[i + 3]) {
+                    return None;
+                }
+                let v = 100 * (d - b'0') as u32 + 10 * (t[i + 2] - b'0') as u32 + (t[i + 3] - b'0') as u32;
+                if v > 255 {
+                    return None;
+                }
+                w[wl + 1 + cur] = v as u8;
+                cur += 1;
+                i += 4;
+            } else {
+                w[wl + 1 + cur] = d;
+                cur += 1;
+                i += 2;
+            }
+        } else if c == b'.' {
+            if cur == 0 {
+                return None;
+            }
+            w[wl] = cur as u8;
+            wl += 1 + cur;
+            cur = 0;
+            i += 1;
+        } else if c >= 128 {
+            return None;
+        } else {
+            w[wl + 1 + cur] = c;
+            cur += 1;
+            i += 1;
+        }
+        steps += 1;
+    }
+    if cur != 0 {
+        return None;
+    }
+    w[wl] = 0;
+    Some((w, wl + 1))
+}
+
+/// Longest text of the from_str harness.
+const TL: usize = 5;
+
+/// [C16.text_accepts] for EVERY ASCII text of <= TL octets (incl. '.', '\\',
+/// digits, space, NUL) `"..".parse::<Box<Name>>()` succeeds exactly when the
+/// reference decoder does and yields that wire form.
+#[kani::proof]
+#[kani::unwind(8)]
+pub(crate) fn bnd_name_from_str_matches_reference() {
+    let mut t = NTxt::new();
+    let n: usize = kani::any();
+    kani::assume(n <= TL);
+    let mut i = 0;
+    while i < TL {
+        if i < n {
+            let c: u8 = kani::any();
+            kani::assume(c < 128);
+            t.b[i] = c;
+        }
+        i += 1;
+    }
+    t.n = n;
+    let want = ref_text_name(&t.b[..n], TL);
+    match t.as_str().parse::<Box<Name>>() {
+        Ok(name) => match want {
+            Some((w, wl)) => assert!(name.wire_repr() == &w[..wl]),
+            None => assert!(false),
+        },
+        Err(_) => assert!(want.is_none()),
+    }
+}
+
+/// [C16.text_roundtrip] Display -> FromStr gives the identical wire form, for
+/// every name of <= 2 non-null labels of <= 1 arbitrary octet (all 256 values:
+/// '.', '\\', space, NUL, digits, non-ASCII...).
+#[kani::proof]
+#[kani::unwind(12)]
+pub(crate) fn bnd_name_display_fromstr_roundtrip() {
+    use core::fmt::Write;
+    let a = RefName::any();
+    kani::assume(a.k <= 2);
+    kani::assume(a.k < 1 || a.len[0] <= 1);
+    kani::assume(a.k < 2 || a.len[1] <= 1);
+    let mut t = NTxt::new();
+    assert!(write!(t, "{}", a.name()).is_ok());
+    match t.as_str().parse::<Box<Name>>() {
+        Ok(back) => assert!(back.wire_repr() == a.wire()),
+        Err(_) => assert!(false),
+    }
+}
+
+#[kani::proof]
+#[kani::unwind(17)]
+pub(crate) fn dbg_refname() {
+    let a = RefName::any();
+    kani::assume(a.k == 3 && a.len[0] == 2 && a.len[1] == 1 && a.len[2] == 1);
+    let n = a.name();
+    assert!(n.len() == 4);
+    assert!(a.wire_len == 8);
+    assert!(n.wire_repr().len() == 8);
+    assert!(n.wire_repr() == a.wire());
+    assert!(a.buf[0] == 4 && a.buf[1] == 0 && a.buf[2] == 3 && a.buf[3] == 5 && a.buf[4] == 7);
+    assert!(n[2].len() == 1);
+    assert!(n[2].octets()[0] == a.oct[2][0]);
+    assert!(a.label(2).len() == 1);
+    assert!(a.label(2)[0] == a.oct[2][0]);
+}
+
+#[kani::proof]
+#[kani::unwind(17)]
+pub(crate) fn dbg_subdomain() {
+    let (a, b) = (RefName::any(), RefName::any());
+    kani::assume(a.k == 3 && a.len[0] == 2 && a.len[1] == 1 && a.len[2] == 1);
+    kani::assume(b.k == 3 && b.len[0] == 2 && b.len[1] == 1 && b.len[2] == 1);
+    kani::assume(a.oct[0][0] == 0 && a.oct[0][1] == 60 && a.oct[1][0] == 2 && a.oct[2][0] == 91);
+    kani::assume(b.oct[0][0] == 0 && b.oct[0][1] == 60 && b.oct[1][0] == 1 && b.oct[2][0] == 64);
+    let r = a.name().eq_or_subdomain_of(b.name());
+    let s = ref_subdomain(&a, &b);
+    assert!(!s);
+    assert!(!r);
 }
